@@ -345,6 +345,7 @@ def run(rep, tier):
         # views into the schema text buffer, so that buffer must outlive them (shared with C13 clause g)
         from . import c13
         c13.clause_g(facts, rep)
+        c13.clause_c(facts, rep)     # a replaced document node is destroy()ed before - not after - its header is rewritten
     rep.trust('clang 14 front end and CFG builder', 'std::vector emplace_back/push_back add one element, pop_back removes one, back() reads the last')
     rep.assumptions += [
         'decides the mode and context-stack discipline of SchemaHandler (Start/End stack effects agree, saved contexts are restored before being popped, no existing object is consulted while a new value is built, Key accepts exactly found members)',
